@@ -58,7 +58,7 @@ def build(chk):
     evdep = eng.find_body(lambda b: b.name.split('::')[-1] == 'eval_dependencies')
     B, rd = Build(chk), Rd(chk)
     chk.bounds = {'function level': '(thorough: f with two degree-2 monomials is not combined with the 2-monomial quadratic replacement nor with two 2-term replacements: z3 returns unknown there) f with <= 2 (quick) / 3 (thorough) monomials of degree <= 2, ids over {0,1,2}; replacement maps with 1..2 entries (keys 0 / 0,1), '
-                  'each replacement of degree <= 2 with <= 2 terms over ids {0,2} (so replaced variables may be mentioned)',
+                  'each replacement of degree <= 2 with <= 2 terms; one entry: over ids {0,2} (own key included); two entries: replacement 0 over {1,2}, replacement 1 over {0,2} (each may mention the other key), both iteration orders of the replacement map',
                   'instance level': '3 variables, objective + active + removed constraint, one or two successive substitutions (chain)',
                   'eval_dependencies': 'every directed graph on <= 3 dependent variables (each optionally using the base variable), plus 4 dependents: quick = the 64 DAGs with edges from lower to higher id, thorough = every directed graph (base variable used by the sinks); base variable present/absent; every iteration order of the dependency map',
                   'coefficients': '0 or magnitude in [2^-4, 2^4]; instance-level harness: positive coefficients in [2^-4, 2^4] and three concrete dyadic states (cancellation inside substitution is covered at function level)'}
@@ -73,7 +73,10 @@ def build(chk):
             fval, sf = build_function_choose(P, fshape, lambda n: dom(P, n))
             reps, repvals = {}, []
             for k, rs in enumerate(rshapes):
-                two = [0, 2]
+                # a replacement may mention replaced variables: with one entry (key 0) it ranges over ids {0,2} (its own key included);
+                # with two entries (keys 0,1) replacement 0 ranges over {1,2} and replacement 1 over {0,2}, so each may mention the
+                # other's key (swap-like maps) and simultaneous differs from one-after-the-other in either iteration order
+                two = [0, 2] if len(rshapes) == 1 else ([1, 2] if k == 0 else [0, 2])
                 rv, rsf = build_rep(P, rs, f'r{k}', two)
                 reps[k] = sym_canon(rsf)
                 repvals.append([k, rv])
@@ -84,6 +87,8 @@ def build(chk):
                 rd_ = {str(k): chk.hexmsg(v, MSGF, model) for k, v in repvals}
                 rdicts = {k: chk.conv.to_dict(v, MSGF, model) for k, v in repvals}
                 case = {'op': 'substitute_function', 'f': chk.hexdict(fd, MSGF), 'replacements': rd_}
+                if len(repvals) > 1:
+                    case['tries'] = 60     # native HashMap order is random: every distinct outcome over 60 fresh maps is judged
                 want = {}
                 fc = canon_poly(fn_monomials(fd))
                 rc = {k: canon_poly(fn_monomials(v)) for k, v in rdicts.items()}
@@ -94,6 +99,8 @@ def build(chk):
                     want = poly_add(want, term)
 
                 def judge(res):
+                    if 'variants' in res:
+                        return any(judge(v) for v in res['variants'])
                     if 'ok' not in res:
                         return True
                     got = canon_poly(fn_monomials(chk.unhex(res['ok']['f'], MSGF)))
@@ -156,7 +163,7 @@ def build(chk):
         for r0, r1 in pairs:
             if beyond_z3(fs, [r0, r1]):
                 continue
-            chk.harness(f'function:{"/".join(map(str, fs))}<-[{"/".join(map(str, r0))}],[{"/".join(map(str, r1))}]', mk_fn(fs, [r0, r1]))
+            chk.harness(f'function:{"/".join(map(str, fs))}<-[{"/".join(map(str, r0))}],[{"/".join(map(str, r1))}]', mk_fn(fs, [r0, r1]), hash_order='all')
 
     # ---------------------------------------------------------------- eval_dependencies: all graphs, all orders
     def mk_deps(nd, dag_only=False, first_edges=None, via_instance=False):
